@@ -750,6 +750,7 @@ main (int argc, char **argv)
 	before = __sanitizer_get_current_allocated_bytes ();
 #endif
       dispatch (toks);
+      alarm (0);
       std::string err = take_stderr ();
       if (! err.empty ())
 	fprintf (out, "s %s\n", hex (err).c_str ());
